@@ -5,8 +5,10 @@
      updateRequested  : load(state_) == kNeedsUpdate                                            1 step
      tryEmplaceUpdate : CAS(state_, kNeedsUpdate -> kUpdating) [fail: return false];
                         obj_.emplace(v); store(state_, kReady); return true                     1 or 3 steps
-     getUpdate        : load(state_) == kReady [else return {}]; obj = std::move(obj_);
+     getUpdate        : CAS(state_, kReady -> kUpdating) [fail: return {}]; obj = std::move(obj_);
                         store(state_, kNone); return obj                                        1, 3 or 4 steps
+                        (the code after the repair "fix: AsyncRequest::getUpdate must claim the update before moving
+                        it"; before it the first step was a plain load(state_) == kReady)
 
    The move of obj_ is not one atomic access: OpResult's / std::optional's move constructor tests the engaged flag,
    runs T's move constructor (user code; the lockstep harness's T has a scheduling point at its end) and only then
@@ -33,7 +35,7 @@ Inductive pc :=
 | PStart
 | PReqCas | PUpdLoad
 | PEmpCas (v : Z) | PEmplace (v : Z) | PStoreReady
-| PGetLoad | PMove | PMoveT (r : option Z) | PStoreNone (r : option Z)
+| PGetCas | PMove | PMoveT (r : option Z) | PStoreNone (r : option Z)
 | PDone.
 
 Inductive ev := EvReq | EvEmplace (v : Z) | EvGet (v : Z).
@@ -47,7 +49,7 @@ Definition kNone := 0. Definition kNeedsUpdate := 1. Definition kUpdating := 2. 
 (* site ids = positions in props/C24.py SITES *)
 Definition s_start := 0.     Definition s_req_cas := 1.   Definition s_upd_load := 2.
 Definition s_emp_cas := 3.   Definition s_emp_emplace := 4. Definition s_emp_store := 5.
-Definition s_get_load := 6.  Definition s_get_move := 7.  Definition s_get_store := 8.
+Definition s_get_cas := 6.  Definition s_get_move := 7.  Definition s_get_store := 8.
 Definition s_t_moved := 9.
 
 (* result tags *)
@@ -58,7 +60,7 @@ Definition entry (o : op) : pc :=
   | OReq => PReqCas
   | OUpdReq => PUpdLoad
   | OEmplace v => PEmpCas v
-  | OGet => PGetLoad
+  | OGet => PGetCas
   end.
 
 Definition next (th : thread) : thread :=
@@ -96,9 +98,9 @@ Definition step (s : state) (t : nat) (ch : list Z) : option (state * list Z * Z
           else upd w (obj s) (hist s) (next (logr th r_emplace 0)) s_emp_cas
       | PEmplace v => upd w (Some v) (EvEmplace v :: hist s) (goto th PStoreReady) s_emp_emplace
       | PStoreReady => upd kReady (obj s) (hist s) (next (logr th r_emplace 1)) s_emp_store
-      | PGetLoad =>
-          if w =? kReady then upd w (obj s) (hist s) (goto th PMove) s_get_load
-          else upd w (obj s) (hist s) (next (logr th r_getnone 0)) s_get_load
+      | PGetCas =>
+          if w =? kReady then upd kUpdating (obj s) (hist s) (goto th PMove) s_get_cas
+          else upd w (obj s) (hist s) (next (logr th r_getnone 0)) s_get_cas
       | PMove =>
           match obj s with
           | Some v => upd w (obj s) (EvGet v :: hist s) (goto th (PMoveT (Some v))) s_get_move
@@ -129,12 +131,6 @@ Definition run_ar (fuel : nat) (kp : bool) (progs : list (list op)) (sched : lis
   run step cands finished fuel (init kp progs) sched [].
 
 (* ---- observables used by the theorems ---- *)
-Definition is_get (o : op) : bool := match o with OGet => true | _ => false end.
-Definition has_get (p : list op) : bool := existsb is_get p.
-(* the domain of the positive theorems: at most one thread ever calls getUpdate *)
-Definition single_consumer (progs : list (list op)) : bool :=
-  (Z.of_nat (length (filter has_get progs)) <=? 1).
-
 Definition op_tags (o : op) : list Z := match o with OEmplace v => [v] | _ => [] end.
 Definition all_tags (progs : list (list op)) : list Z := flat_map (flat_map op_tags) progs.
 
